@@ -79,6 +79,10 @@ CLAIMED = {
    technique="C08-style enumeration on blocks defined in the harness with #[derive(Block)]: sync 1x1, 2x1, 1x2, 3x2, 2x3, sync_tag 1x1 and 3x3, default/into fields, a new()-only block with copy and non-copy outputs; per-call accounting oracle; generated eof() over all 4^n input states",
    text="For every drip-feed schedule up to the horizon each call must process exactly min(shortest input, smallest output space) steps on every stream and answer Again, or move nothing and wait (need 1) on a stream that really is an empty input or a full output; outputs equal the per-sample function, tags of the first input follow, new() returns read ends in declaration order, and the generated eof() is true iff all inputs are gone and drained (all 4+16+64 combinations).",
    note="Trusted: as C08. The derive macro is exercised through blocks compiled into the harness, so a macro change is picked up by the rebuild.", ref="DESIGN.md 3-E3, 5-C19"),
+ "C20": dict(level="exploration", engine="e2e",
+   technique="exhaustive enumeration of a declared configuration grid (quick: a covering sub-grid of 440 points, thorough: the full product) of synthesised clean transmissions, each decoded by the real receive chain on both runners and compared with the transmitted frame list",
+   text="Harness modulators (Bell-202 AFSK with continuous phase, NRZI, HDLC; G3RUH scrambled NRZI 2-FSK) produce every grid point: payload family x length 10-300 x 1/3/8 frames x flags between x preamble x start phase x sub-sample symbol timing x sample rate x runner. The chain re-assembled from the examples (constructor order checked against examples/ax25-*-rx.rs on every run) must deliver exactly the transmitted frames, once, in order, and nothing else. Exhaustive over the grid only: payloads and waveforms are not enumerable, and multi-threaded runs use OS scheduling.",
+   note="Trusted: the modulators and reference framer. The 9600-baud chain uses the ZeroCrossing block, as the property says ('zero-crossing clock recovery'); the example file's SymbolSync stage is replaced by it.", ref="DESIGN.md 5-C20"),
 }
 
 ENGINES = [
@@ -100,6 +104,8 @@ ENGINES = [
   "kind_free_text": "exhaustive enumeration of value domains, length grids, member orders and read segmentations for the byte formats"},
 {"name": "dsp", "path": "/verif/harness/seq/src/dsp.rs", "serves_properties": ["C11"],
   "kind_free_text": "grid / basis enumeration of DSP kernels against f64 definitions, in three kernel builds"},
+{"name": "e2e", "path": "/verif/harness/seq/src/e2e.rs", "serves_properties": ["C20"],
+  "kind_free_text": "configuration-grid enumeration of synthesised transmissions through the real receive chains on both runners"},
  {"name": "mt", "path": "/verif/harness/mt/src", "serves_properties": ["C03", "C04", "C05", "C07"],
   "kind_free_text": "stateless model checking: deviation-bounded DFS over schedules of the real code on the shuttle runtime, timeouts as scheduler choices"},
 ]
